@@ -83,6 +83,9 @@ def least_squares(fun, x0, jac="2-point", bounds=(-float("inf"), float("inf")), 
         if W is not None and _special(lo) and _special(hi):
             core.assume(core.And(v >= lift(x0[i]) - W, v <= lift(x0[i]) + W),
                         f"cut: unbounded parameters of the optimiser result lie within {W} of the start")
+        hint = CONFIG.get("hint")
+        if hint is not None:
+            hint(i, n, v, [lift(t) for t in x0])
         xs[i] = v
     f1 = _np.atleast_1d(fun(xs.copy()))
     call["x"] = xs
@@ -101,8 +104,9 @@ def minimize_scalar(*a, **k):
     raise core.Abort("unsupported", "scipy.optimize.minimize_scalar is not modelled")
 
 
-def reset(cost=True, enabled=True, window=None):
+def reset(cost=True, enabled=True, window=None, hint=None):
     CONFIG["window"] = window
+    CONFIG["hint"] = hint
     CONFIG["cost"] = cost
     CONFIG["enabled"] = enabled
     CONFIG["calls"] = []
